@@ -20,10 +20,26 @@ PID = 'C10'
 LEAN_TARGETS = ['CfVerif.Props.C10']
 PROPS_MODULES = ['CfVerif.Props.C10']
 DRIVER = 'Driver/C10.lean'
-REQUIRED_THEOREMS = []
-TRUSTED = []
-ASSUMPTIONS = []
-RULE = ''
+REQUIRED_THEOREMS = ['CfVerif.C10.' + n for n in (
+    'src_repaired', 'gen_retry_args', 'gen_patterns', 'gen_size_check', 'gen_check_for_answers',
+    'retries_until_answered', 'retry_fires', 'retries_at_timeout', 'retries_at_t0_plus_kT', 'no_retry_after_answer',
+    'longest_prefix_only', 'nothing_on_closed_link', 'no_cross_session_tx', 'reliable_link_no_retry',
+    'reliable_links_no_timers', 'driver_needs_resending', 'live_no_retry_after_answer_counterexample',
+    'live_no_cross_session_tx_counterexample', 'live_retries_at_timeout_counterexample')]
+TRUSTED = ['harness/corr/c10.py: the path analysis of send_packet (conditions -> Boolean functions over six atoms), the extraction of '
+           'close_link/_link_error_cb/open_link flags, and the correspondence harness',
+           'threading.Timer modelled as: wait(interval); if not cancelled: call function (two separately scheduled steps); '
+           'cancel() after the first step has no effect; Timer objects are truthy',
+           'dict semantics of _answer_patterns (insertion order, get/set/del by tuple equality)',
+           'the fake Timer/link/Commander-proxy substitutions reproduce what the real threads would do at yield-point granularity']
+ASSUMPTIONS = ['atomic steps: a send_packet critical section, one _check_for_answers call, the two steps of a timer thread, the two halves '
+               'of close_link, _link_error_cb, open_link; CPython preemption INSIDE these (e.g. _check_for_answers deleting a pattern '
+               'between the identity test and the re-registration in send_packet, or close_link racing _check_for_answers) is outside the model',
+               'requests whose pattern is re-registered by a later request with the identical pattern are superseded (their retry chain '
+               'stops); the retried-until-answered theorem excludes such continuations explicitly (QuietRun)',
+               'open_link: only `self.link = <new link object>` and the clearing of pending timers are modelled; connection set-up traffic is '
+               'ordinary send events',
+               'timer punctuality is a hypothesis of the closed form t0 + k*T only; all other theorems hold for arbitrarily late timers']
 
 CF = 'cflib/crazyflie/__init__.py'
 CRTP = 'cflib/crtp/crtpstack.py'
